@@ -127,7 +127,7 @@ def random_case(rng, tier):
             scenario.append(['continue', base, tag, False])
         ops.extend(scenario)
     return {'programs': progs, 'persister': persister, 'loader': rng.choice(['default', 'default', 'custom']),
-            'via': rng.choice(['loopcomm', 'loopcomm', 'direct']), 'ops': ops,
+            'via': rng.choice(['loopcomm', 'loopcomm', 'direct']), 'ops': ops, 'load_context': rng.random() < 0.5,
             'delay': rng.choice([0, 0, 0.5])}
 
 
@@ -149,7 +149,7 @@ def shrink(case):
             candidate = copy.deepcopy(case)
             candidate['programs'][i] = smaller
             yield candidate
-    for key, simple in (('loader', 'default'), ('via', 'loopcomm'), ('delay', 0), ('persister', 'memory')):
+    for key, simple in (('loader', 'default'), ('via', 'loopcomm'), ('delay', 0), ('persister', 'memory'), ('load_context', False)):
         if case.get(key) != simple:
             candidate = copy.deepcopy(case)
             candidate[key] = simple
@@ -182,17 +182,22 @@ class Harness:
         if first:
             for program in self.case['programs']:
                 self.classes.append(programs.build_process_class(program, self.world, plumpy, hooks=False, record_calls=False))
+            if self.case['loader'] == 'custom':
+                self.loader = persist.make_custom_loader(plumpy)
             if self.case['persister'] == 'memory':
-                self.persister = plumpy.InMemoryPersister()
+                # with a custom loader the in-memory checkpoints name their classes by that loader's identifiers, which
+                # the default loader cannot resolve: continuing them needs the configured loader
+                self.persister = plumpy.InMemoryPersister(loader=self.loader)
             elif self.case['persister'] == 'pickle':
                 self.directory = tempfile.mkdtemp(prefix='c17-')
                 self.persister = plumpy.PicklePersister(self.directory)
-            if self.case['loader'] == 'custom':
-                self.loader = persist.make_custom_loader(plumpy)
         elif self.case['persister'] == 'pickle':
             self.persister = plumpy.PicklePersister(self.directory)
         self.communicator = comm.SimCommunicator(self.loop)
-        self.launcher = plumpy.ProcessLauncher(loop=self.loop, persister=self.persister, loader=self.loader)
+        # half of the cases also hand the launcher a load context of their own (the loader must still be the one used)
+        load_context = plumpy.LoadSaveContext(marker='from-case') if self.case.get('load_context') else None
+        self.launcher = plumpy.ProcessLauncher(loop=self.loop, persister=self.persister, load_context=load_context,
+                                               loader=self.loader)
         self.loop_comm = plumpy.wrap_communicator(self.communicator, self.loop)
         self.loop_comm.add_task_subscriber(self.launcher, identifier='launcher')
         self.controller = plumpy.RemoteProcessController(self.communicator)
